@@ -27,6 +27,11 @@ opened by the previous directive.
     %wrap N `anchor`              two text blocks separated by a line '---': inserted before / after the anchor tokens
     %truncate N `e as T`          shorthand: wrap the cast in #[verifier::truncate] ( ... )
     %nocanary                     do not emit the reachability canary for this function
+    %closure N [optional]         R20: `%fn PATH#TAG` is the N-th immediately-invoked closure `(|| -> T { .. })()` of PATH, lifted
+                                  to a function NAME__TAG (lambda lifting); `optional`: absent in some builds (cfg)
+    %sig (params)                 R20: the lifted function's parameter list (the captured variables)
+    %deref a b                    R20: captured by mutable reference: uses inside the closure body become (*a), (*b)
+    %callclosure N => CALL        R20: in the host function the N-th immediately-invoked closure is replaced by CALL
     %specialize PARAM => FUNC     R19: `%fn PATH#TAG` emits a copy NAME__TAG of the function in which the function-pointer
                                   parameter PARAM is dropped and every call `PARAM(...)` calls FUNC (one copy per call site's
                                   function argument; the call sites are redirected with %rename)
@@ -69,6 +74,11 @@ class FnSpec:
     hints: list = field(default_factory=list)
     nocanary: bool = False
     specialize: dict = field(default_factory=dict)
+    closure: int = 0
+    closure_optional: bool = False
+    sig: str = ""
+    deref: list = field(default_factory=list)
+    callclosure: dict = field(default_factory=dict)
     shared: bool = False
     src: str = ""
     line: int = 0
@@ -254,6 +264,17 @@ def parse_unit(path):
             cur_fn.props = arg.split()
         elif d == "%nocanary":
             cur_fn.nocanary = True
+        elif d == "%closure":
+            ps = arg.split()
+            cur_fn.closure = int(ps[0])
+            cur_fn.closure_optional = "optional" in ps[1:]
+        elif d == "%sig":
+            cur_fn.sig = arg
+        elif d == "%deref":
+            cur_fn.deref = arg.split()
+        elif d == "%callclosure":
+            a, b = [x.strip() for x in arg.split("=>", 1)]
+            cur_fn.callclosure[int(a)] = b
         elif d == "%specialize":
             a, b = [x.strip() for x in arg.split("=>")]
             cur_fn.specialize[a] = b
